@@ -66,6 +66,7 @@ fn main() {
             let mut report = util::Report::new("debug", "quick", "model_checking");
             props::bigrecovery::run(&["C04", "C11"], &mut report);
             println!("{}", serde_json::to_string(&report.coverage["big_recovery"]).unwrap_or_default());
+            println!("{}", serde_json::to_string(&report.coverage.get("big_recovery_torn_journal_slot")).unwrap_or_default());
             for v in report.violations.iter().take(6) {
                 println!("VIOLATION {}", v.detail.chars().take(700).collect::<String>());
             }
